@@ -241,7 +241,7 @@ def ruleTomorrow(ts: datetime, _: RegexMatch) -> Time:
     return Time(year=dm.year, month=dm.month, day=dm.day)
 
 
-@rule(r"übermorgen")
+@rule(r"übermorgen|(the )?day after tomorrow")
 def ruleAfterTomorrow(ts: datetime, _: RegexMatch) -> Time:
     dm = ts + relativedelta(days=2)
     return Time(year=dm.year, month=dm.month, day=dm.day)
@@ -253,7 +253,7 @@ def ruleYesterday(ts: datetime, _: RegexMatch) -> Time:
     return Time(year=dm.year, month=dm.month, day=dm.day)
 
 
-@rule(r"vor\s?gestern")
+@rule(r"vor\s?gestern|(the )?day before yesterday")
 def ruleBeforeYesterday(ts: datetime, _: RegexMatch) -> Time:
     dm = ts + relativedelta(days=-2)
     return Time(year=dm.year, month=dm.month, day=dm.day)
